@@ -2020,10 +2020,20 @@ func opcodeCheckSig(op *ParsedOpcode, t *thread) error {
 		return err
 	}
 
+	// A check that fails for whatever reason - also because the key or the
+	// signature cannot be parsed - yields false, or an error when null-fail is
+	// required and the signature is not empty.
+	failed := func() error {
+		if t.hasFlag(scriptflag.VerifyNullFail) && len(fullSigBytes) > 0 {
+			return errs.NewError(errs.ErrNullFail, "signature not empty on failed checksig")
+		}
+		t.dstack.PushBool(false)
+		return nil
+	}
+
 	pubKey, err := bec.ParsePubKey(pkBytes, bec.S256())
 	if err != nil {
-		t.dstack.PushBool(false)
-		return nil //nolint:nilerr // only need a false push in this case
+		return failed()
 	}
 
 	var signature *bec.Signature
@@ -2033,16 +2043,14 @@ func opcodeCheckSig(op *ParsedOpcode, t *thread) error {
 		signature, err = bec.ParseSignature(sigBytes, bec.S256())
 	}
 	if err != nil {
-		t.dstack.PushBool(false)
-		return nil //nolint:nilerr // only need a false push in this case
+		return failed()
 	}
 
-	ok := signature.Verify(hash, pubKey)
-	if !ok && t.hasFlag(scriptflag.VerifyNullFail) && len(sigBytes) > 0 {
-		return errs.NewError(errs.ErrNullFail, "signature not empty on failed checksig")
+	if !signature.Verify(hash, pubKey) {
+		return failed()
 	}
 
-	t.dstack.PushBool(ok)
+	t.dstack.PushBool(true)
 	return nil
 }
 
